@@ -93,6 +93,31 @@ func (c *srcChain) otherSetHeight(T int64) int64 {
 	return best
 }
 
+// otherShapeHeight: the nearest height whose set has other members or another order than the one
+// in force at T (a commit shaped for it has other slots), or 0.
+func (c *srcChain) otherShapeHeight(T int64) int64 {
+	same := func(a, b []member) bool {
+		if len(a) != len(b) {
+			return false
+		}
+		for i := range a {
+			if !bytes.Equal(a[i].Addr, b[i].Addr) {
+				return false
+			}
+		}
+		return true
+	}
+	best := int64(0)
+	for h := int64(1); h <= c.top; h++ {
+		if !same(c.mem[h], c.mem[T]) {
+			if best == 0 || absI(h-T) < absI(best-T) {
+				best = h
+			}
+		}
+	}
+	return best
+}
+
 func absI(a int64) int64 {
 	if a < 0 {
 		return -a
@@ -302,7 +327,7 @@ func catalogue() []*mutation {
 		lcMut("commit-shaped-for-another-validator-set", "reject", true, func(x *mctx, b *types.Block, lc *types.Commit) *types.Commit {
 			// the slots of the set of another height (before / after a change): V0's genuine vote
 			// in the slot V0 has there, members of that set (removed since, or not yet added) sign
-			o := x.c.otherSetHeight(x.T)
+			o := x.c.otherShapeHeight(x.T)
 			if o == 0 {
 				return &types.Commit{BlockID: lc.BlockID, Precommits: append(lc.Precommits, lc.Precommits...)}
 			}
